@@ -45,8 +45,8 @@ ASSUMPTIONS = [
     "(C03_components_total) under what its callers guarantee: phased_positions sorted, master block a subset of "
     "phased_positions not repeating its first element, every read sample present in heterozygous_positions, no read listing "
     "its first retained position twice (otherwise model and code raise the same exception class: malformed stream)",
-    "CLI correspondence does not cover --distrust-genotypes runs (that branch of compute_overall_components is covered by "
-    "the direct stream)",
+    "--distrust-genotypes at the CLI: homo-/heterozygosity of the specification is read from the super-reads of all family "
+    "members in the trace (what the run decided), not from the input genotypes",
 ]
 
 HEADER = """From Coq Require Import ZArith List Bool Arith.
@@ -240,7 +240,7 @@ def gen_reads(rng, U, nreads):
 def gen_fc_random(rng, count):
     for _ in range(count):
         r0 = rng.random()
-        nv = rng.randint(2, 14) if r0 < 0.88 else rng.randint(15, 40) if r0 < 0.98 else rng.choice([70, 130, 260])
+        nv = rng.randint(2, 14) if r0 < 0.88 else rng.randint(15, 40) if r0 < 0.97 else rng.choice([70, 140, 330])
         U = sorted(rng.sample(range(0, rng.choice([3000, 3000, 250000000])), nv))
         r = rng.random()
         P = [] if r < 0.03 else [rng.choice(U)] if r < 0.08 else (sorted(p for p in U if rng.random() < 0.8) or [U[0]])
@@ -441,7 +441,24 @@ def cli_case_terms(spec, res):
         genetic = bool(rec["genetic_haplotyping"])
         # specification-side master block: accessible positions homozygous (truth) in some family member
         mb_spec = None
-        if len(fam) > 1 and genetic:
+        het_spec = None
+        distrust = bool(rec["distrust_genotypes"])
+        if distrust:
+            # --distrust-genotypes: homo-/heterozygosity is what the run itself decided, read from the super-reads of ALL
+            # family members in the trace (with or without reads) -- independent of the implementation's own master block
+            het_spec, hom_any = [], set()
+            for sid, srs in zip(ids, rec["superreads"]):
+                hets = []
+                for a, b in zip(srs[0], srs[1]):
+                    if a[0] in rk.rank and a[0] in set(acc):
+                        if (a[1], b[1]) in ((0, 1), (1, 0)):
+                            hets.append(rk(a[0]))
+                        elif (a[1], b[1]) in ((0, 0), (1, 1)):
+                            hom_any.add(a[0])
+                het_spec.append((sid, hets))
+            if len(fam) > 1 and genetic:
+                mb_spec = [rk(p) for p in acc if p in hom_any]
+        elif len(fam) > 1 and genetic:
             truth_hom = set()
             for i, v in enumerate(sc.variants[chrom]):
                 if any(len(set(sc.genotype(s, chrom, i))) == 1 for s in fam):
@@ -476,19 +493,20 @@ def cli_case_terms(spec, res):
         term = (f"(({zl(rk.sorted)} : list Z), ({nl(rk.many(acc))} : list nat), ({reads_t(reads)} : list cread), {optl(mb_spec)}, "
                 f"{assoc_t(comps)}, {obs(calls_in)}, "
                 f"{obs(rl)}, ({len(fam)}, {'true' if genetic else 'false'}, ({nl(rk.many(rec['homozygous_positions']))} : list nat), "
-                f"({sr} : list (nat * list srcol))))")
+                f"({sr} : list (nat * list srcol)), {het_t(het_spec)}, {'true' if distrust else 'false'}))")
         nclasses = len({b for _, b in comps})
         out.append(dict(term=term, rec=rec, calls_out=calls_out, rl_bad=rl_bad, nclasses=nclasses, ncalls=len(calls_in),
-                        nrows=len(rl), mb=mb_spec))
+                        nrows=len(rl), mb=mb_spec, distrust=distrust,
+                        readless=[smp for smp, sid in zip(fam, ids) if not any(r["sample_id"] == sid for r in reads_rec)]))
     return out
 
 
-CLI_PROJ = "let '(gpos, P, reads, mb, comps, calls, rl, (fam, genetic, hom, sr)) := c in "
+CLI_PROJ = "let '(gpos, P, reads, mb, comps, calls, rl, (fam, genetic, hom, sr, het, distrust)) := c in "
 CLI_CHECKS = {
-    "L1trace": f"fun c => {CLI_PROJ} components_ok P reads mb None comps",
-    "L1ids": f"fun c => {CLI_PROJ} ids_ok gpos P reads mb None calls",
-    "L1rl": f"fun c => {CLI_PROJ} ids_ok gpos P reads mb None rl",
-    "L2": f"fun c => {CLI_PROJ} result_eqb (compute_overall_components P reads false fam genetic hom sr) (inl comps)",
+    "L1trace": f"fun c => {CLI_PROJ} components_ok P reads mb het comps",
+    "L1ids": f"fun c => {CLI_PROJ} ids_ok gpos P reads mb het calls",
+    "L1rl": f"fun c => {CLI_PROJ} ids_ok gpos P reads mb het rl",
+    "L2": f"fun c => {CLI_PROJ} result_eqb (compute_overall_components P reads distrust fam genetic hom sr) (inl comps)",
 }
 
 
@@ -502,7 +520,7 @@ def check_cli(ctx, specs, label):
         results = list(ex.map(one, enumerate(specs)))
     terms, owners = [], []
     for spec, res in zip(specs, results):
-        phase_cli.tally_variation(ctx, spec, "cli" if not spec.get("junctions") else "jn")
+        phase_cli.tally_variation(ctx, spec, "jn" if spec.get("junctions") else "rl" if spec.get("readless") is not None else "cli")
         if res["rc"] != 0:
             ctx.count(("cli", repr(spec)), nontrivial=True)
             sig, why = phase_cli.classify_crash(spec, res, "components:cli-crash")
@@ -546,6 +564,21 @@ def check_cli(ctx, specs, label):
                 ctx.tally("cli.junction_link_reads_dropped_by_selection", max(0, n_links - used))
                 if n_links - used > 0:
                     ctx.tally("cli.junction_records_with_dropped_sole_link")
+            if item["distrust"]:
+                ctx.tally("cli.distrust_records")
+                if item["mb"]:
+                    ctx.tally("cli.distrust_records_with_master_block")
+            if item["readless"] and len(rec["family"]) > 1:
+                ctx.tally("cli.records_with_family_member_without_reads")
+                # does a read-less member alone contribute a master-block position? (homozygous there, nobody else is)
+                sr_by = dict(zip(rec["family"], rec["superreads"]))
+                def homs(smp):
+                    return {a[0] for a, b in zip(*sr_by[smp]) if (a[1], b[1]) in ((0, 0), (1, 1))} if item["distrust"] else None
+                if item["distrust"]:
+                    others = set().union(*[homs(x) for x in rec["family"] if x not in item["readless"]]) if len(item["readless"]) < len(rec["family"]) else set()
+                    alone = set().union(*[homs(x) for x in item["readless"]]) - others
+                    if alone & set(rec["accessible_positions"]):
+                        ctx.tally("cli.readless_member_alone_homozygous_at_accessible_position")
             if item["mb"]:
                 ctx.tally("cli.records_with_master_block")
             if len(rec["family"]) > 1 and not rec["genetic_haplotyping"]:
@@ -612,12 +645,13 @@ def run(ctx):
     for i in range(ctx.n(60, 240)):
         specs.append(phase_cli.make_spec(rng, trio=(i % 2 == 0), tag=("PS" if i % 4 < 2 else "HP"), low_cov_gaps=(i % 5 != 0),
                                          k=rng.choice([4, 6, 8, 15]), depth_reads=rng.randint(15, 60)))
-    for nv in ctx.n([70, 70, 140], [70, 70, 140, 140, 140]):
-        # no master block here: the all-pairs edge list of a 100-position master block makes the L1 table too slow
-        specs.append(phase_cli.make_large_spec(rng, nv, trio=False, tag=rng.choice(["PS", "HP"]), low_cov_gaps=True,
-                                               k=2, depth_reads=nv * 4, phased_input=False))
+    for j, nv in enumerate(ctx.n([70, 70, 140], [70, 70, 140, 140, 140, 270])):
+        # pedigree (master block) only for the 70-variant instances: the all-pairs edge list of a large master block is slow
+        specs.append(phase_cli.make_large_spec(rng, nv, trio=(nv == 70 and j % 2 == 1), tag=rng.choice(["PS", "HP"]),
+                                               low_cov_gaps=True, k=2, depth_reads=nv * 4, phased_input=False))
     check_cli(ctx, specs, "cli")
     check_cli(ctx, gen_junction_specs(ctx), "jn")
+    check_cli(ctx, [phase_cli.make_readless_spec(rng) for _ in range(ctx.n(24, 200))], "rl")
 
 
 def gen_junction_specs(ctx):
